@@ -79,4 +79,123 @@ theorem runSteps_noninterference (fuel : Nat) (j : Nat) (steps : Steps) : ∀ (w
       simp only [runSteps, List.filter_cons, hij, decide_false, Bool.false_eq_true, if_false]
       exact ⟨g1, g2⟩
 
+/-! ## C18: the REPL loop -/
+
+theorem replStep_eq (fuel : Nat) (rs : ReplState) (line : String) :
+    replStep fuel rs line =
+      if line.isEmpty then (rs, {})
+      else if Bracket.closed (rs.pending ++ line).toList then
+        ({ st := (submit fuel rs.st (rs.pending ++ line)).1, pending := "" }, (submit fuel rs.st (rs.pending ++ line)).2)
+      else ({ rs with pending := rs.pending ++ line ++ "\n" }, {}) := by
+  unfold replStep submit clearOut
+  split
+  · rfl
+  · dsimp only
+    split
+    · generalize evalText fuel _ _ = x
+      obtain ⟨r, st'⟩ := x
+      cases r with
+      | ok v => cases v with
+        | none => rfl
+        | some v => cases v <;> rfl
+      | error e => obtain ⟨e, l⟩ := e; rfl
+    · rfl
+
+theorem submit_submitted (fuel : Nat) (st : State) (source : String) :
+    (submit fuel st source).2.submitted = true := by
+  unfold submit
+  split <;> rfl
+
+/-- the session loop as a recursion on the lines -/
+def replList (fuel : Nat) : ReplState → List String → ReplState × List ReplOut
+  | rs, [] => (rs, [])
+  | rs, l :: ls =>
+    ((replList fuel (replStep fuel rs l).1 ls).1, (replStep fuel rs l).2 :: (replList fuel (replStep fuel rs l).1 ls).2)
+
+theorem foldl_replStep (fuel : Nat) (lines : List String) : ∀ (rs : ReplState) (acc : List ReplOut),
+    lines.foldl (fun (acc : ReplState × List ReplOut) l =>
+      let (rs, o) := replStep fuel acc.1 l
+      (rs, acc.2 ++ [o])) (rs, acc) = ((replList fuel rs lines).1, acc ++ (replList fuel rs lines).2) := by
+  induction lines with
+  | nil => intro rs acc; simp [replList]
+  | cons l ls ih =>
+    intro rs acc
+    simp only [List.foldl_cons, replList]
+    rw [ih]
+    simp
+
+theorem replRun_eq (fuel : Nat) (lines : List String) :
+    replRun fuel lines = replList fuel { st := withStdlib fuel false } lines := by
+  unfold replRun
+  rw [foldl_replStep]
+  simp
+
+theorem replList_groups (fuel : Nat) (lines : List String) : ∀ (rs : ReplState),
+    (replList fuel rs lines).1 =
+      { st := (session fuel rs.st (groupsAux rs.pending lines).1).1, pending := (groupsAux rs.pending lines).2 } ∧
+    (replList fuel rs lines).2.filter (·.submitted) = (session fuel rs.st (groupsAux rs.pending lines).1).2 ∧
+    ∀ o ∈ (replList fuel rs lines).2, o.submitted = false → o.stdout = "" ∧ o.err = none := by
+  induction lines with
+  | nil => intro rs; simp [replList, groupsAux, session]
+  | cons l ls ih =>
+    intro rs
+    simp only [replList, groupsAux]
+    rw [replStep_eq]
+    by_cases he : l.isEmpty
+    · simp only [he, if_true]
+      obtain ⟨a, b, c⟩ := ih rs
+      refine ⟨a, ?_, ?_⟩
+      · rw [List.filter_cons]; simpa using b
+      · intro o ho hs
+        rcases List.mem_cons.1 ho with rfl | ho
+        · exact ⟨rfl, rfl⟩
+        · exact c o ho hs
+    · simp only [he, Bool.false_eq_true, if_false]
+      by_cases hc : Bracket.closed (rs.pending ++ l).toList
+      · simp only [hc, if_true]
+        obtain ⟨a, b, c⟩ := ih { st := (submit fuel rs.st (rs.pending ++ l)).1, pending := "" }
+        simp only at a b c
+        refine ⟨by rw [a]; simp [session], ?_, ?_⟩
+        · rw [List.filter_cons, submit_submitted]; simp [session, b]
+        · intro o ho hs
+          rcases List.mem_cons.1 ho with rfl | ho
+          · rw [submit_submitted] at hs; cases hs
+          · exact c o ho hs
+      · simp only [hc, Bool.false_eq_true, if_false]
+        obtain ⟨a, b, c⟩ := ih { rs with pending := rs.pending ++ l ++ "\n" }
+        simp only at a b c
+        refine ⟨a, ?_, ?_⟩
+        · rw [List.filter_cons]; simpa using b
+        · intro o ho hs
+          rcases List.mem_cons.1 ho with rfl | ho
+          · exact ⟨rfl, rfl⟩
+          · exact c o ho hs
+
+theorem transcript_filter (outs : List ReplOut)
+    (h : ∀ o ∈ outs, o.submitted = false → o.stdout = "" ∧ o.err = none) :
+    transcript (outs.filter (·.submitted)) = transcript outs ∧
+    errors (outs.filter (·.submitted)) = errors outs := by
+  induction outs with
+  | nil => exact ⟨rfl, rfl⟩
+  | cons o os ih =>
+    obtain ⟨i1, i2⟩ := ih (fun o' ho' => h o' (List.mem_cons_of_mem _ ho'))
+    unfold transcript errors at *
+    by_cases hs : o.submitted = true
+    · simp only [List.filter_cons, hs, if_true, List.map_cons, String.join_cons, List.filterMap_cons]
+      rw [i1, i2]; exact ⟨rfl, rfl⟩
+    · have hs' : o.submitted = false := by simpa using hs
+      obtain ⟨h1, h2⟩ := h o (by simp) hs'
+      simp only [List.filter_cons, hs', Bool.false_eq_true, if_false, List.map_cons, String.join_cons,
+        List.filterMap_cons, h1, h2, String.empty_append]
+      exact ⟨i1, i2⟩
+
+/-! ## C17: the command line -/
+
+theorem cli_some (fuel : Nat) (text : String) :
+    cli fuel (some text) =
+      match evalText fuel (default_ false) text.toList with
+      | (.ok _, st) => { stdout := outText st.store, diag := none, errKind := none, exitCode := 0 }
+      | (.error (e, loc), st) =>
+        { stdout := outText st.store, diag := some loc, errKind := some e, exitCode := 255 } := rfl
+
 end Ruschm.FrontSpec
